@@ -107,12 +107,21 @@ func (n *simNet) now() time.Duration { return time.Since(n.t0) }
 func (n *simNet) settle() {
 	time.Sleep(time.Millisecond)
 	synctest.Wait()
+	// goroutines parked in a yield point (simyield) count as running
+	for i := 0; simYieldBusy() && i < 10000; i++ {
+		time.Sleep(100 * time.Microsecond)
+		synctest.Wait()
+	}
 }
 
 // advance moves virtual time forward by d and settles.
 func (n *simNet) advance(d time.Duration) {
 	time.Sleep(d)
 	synctest.Wait()
+	for i := 0; simYieldBusy() && i < 10000; i++ {
+		time.Sleep(100 * time.Microsecond)
+		synctest.Wait()
+	}
 }
 
 func simStart(g *api.Global) (*simNet, error) {
